@@ -73,6 +73,20 @@ MatchC09L(e, n) ==
                     /\ FromJ(q.puzzle) = PuzzleOf(SpendItems(e.genrun.res)[j])
                     /\ FromJ(q.solution) = SpendItems(e.genrun.res)[j].r.r.r.l
 
+\* the raw condition listing of get_coinspends_with_conditions_for_trusted_block: what it shares with validation (C09W)
+\* and its full definition (growth class X10, judged where every puzzle output is logged)
+HasListing(e) == "trusted" \in DOMAIN e /\ e.trusted.csc.ok /\ "listing" \in DOMAIN e.trusted.csc /\ e.trusted.csc.listed
+MatchC09W(e, n) ==
+  (HasListing(e) /\ n.ok /\ e.native.ok) =>
+    LET L == e.trusted.csc.listing IN
+    /\ Len(L) = Len(n.st.ret.spends)
+    /\ \A i \in DOMAIN L : ListingCoversValidated(L[i], n.st.ret.spends[i])
+MatchX10(e, n) ==
+  (HasListing(e) /\ n.ok /\ e.native.ok) =>
+    LET L == e.trusted.csc.listing IN
+    /\ Len(L) = Len(e.runs)
+    /\ \A i \in DOMAIN L : L[i] = ListingOfConds(e.runs[i].res)
+
 MatchGen(e, i) ==
   /\ CheckC(MatchC07(e), i, "C07")
   /\ CheckC(MatchC02(e), i, "C02")
@@ -81,6 +95,8 @@ MatchGen(e, i) ==
                        /\ CheckC(MatchC04(e, n), i, "C04")
                        /\ CheckC(MatchC09(e, n), i, "C09")
                        /\ CheckC(MatchC09L(e, n), i, "C09L")
+                       /\ CheckC(MatchC09W(e, n), i, "C09W")
+                       /\ CheckC(MatchX10(e, n), i, "X10")
      ELSE TRUE
 
 VARIABLE l
